@@ -107,7 +107,13 @@ def c14(tier):
     verdicts = tlc.validate_in_chunks("ArithTrace", traces, rep, "C14", chunk=200)
     rep.coverage["traces_validated_against_impl"] = len(traces)
     rep.coverage["events_validated"] = nev
-    rep.coverage["distinct_nontrivial"] = nev
+    # non-trivial: distinct (operation, width, operands) of div / inv / pow with both operands >= 2
+    distinct = set()
+    for t in traces:
+        for e in t["events"]:
+            if e["op"] in ("div", "inv", "pow2") and sum(e["a"]) >= 2 and (e["op"] == "inv" or sum(e["b"]) >= 2):
+                distinct.add((e["op"], e["w"], tuple(e["a"]), tuple(e["b"]), e["k"]))
+    rep.coverage["distinct_nontrivial"] = len(distinct)
     byid = {rq["id"]: rq for rq in reqs}
     for t in traces:
         v = verdicts[t["id"]]
@@ -123,7 +129,8 @@ def c14(tier):
                             "quotients solvable by construction) at 16/32/64 bit, every link of the "
                             "square-and-multiply chain of pow, shifts by 0..W+1 and 200, and the conversions; each "
                             "recorded result is validated by TLC (ArithTrace.tla) against the contracts with exact "
-                            "limb arithmetic" % maxw)
+                            "limb arithmetic; non-trivial = distinct div / inv / pow events whose operands "
+                            "are both >= 2" % maxw)
     return rep.finish()
 
 
